@@ -13,6 +13,11 @@
 (*                      names its PARENT root; the parent's slot is NOT head slot - 1 (slots    *)
 (*                      can be skipped): whatever handleHead caches must be the truth           *)
 (*   ExecHead           ExecutionChainHead, the query the proposer's auction uses               *)
+(*   Use(kind, A, ok)   the consumers the property is anchored in: the "latest" and "majority" *)
+(*                      beacon block root strategies and the "best" attestation data strategy  *)
+(*                      ask the cache for the slot of every root their nodes answered (A) and  *)
+(*                      prefer the root of the highest slot; a failed lookup is "no slot", not  *)
+(*                      a slot                                                                  *)
 (*   Clean              cleanBlockRootToSlot, the periodic job                                  *)
 (*   Advance(t)         the clock                                                               *)
 (* Property C18: a lookup that reports a slot reports the slot of the block with that root      *)
@@ -27,7 +32,8 @@ CONSTANTS Roots,          \* set of block roots
           Retention,      \* epochs kept by Clean (64 in the code)
           NoRoot,         \* "no block": parent of a block outside Roots, execution head before any payload
           HasPayload,     \* the blocks that carry an execution payload (Bellatrix and later, merged)
-          Deviation       \* "none" | named control design (vacuity self-check), see HeadEvent
+          Deviation,      \* "none" | named control design (vacuity self-check), see HeadEvent
+          UseNodes        \* number of beacon nodes behind the strategies that consume the cache (Use)
 
 VARIABLES chain,   \* ground truth: [Roots -> Slots], the slot of the block with that root
           parent,  \* ground truth: [Roots -> Roots \cup {NoRoot}], the parent of that block (an EARLIER slot,
@@ -96,6 +102,23 @@ CtlHeadEvent(r) ==
     /\ last' = NoReply
     /\ UNCHANGED <<chain, parent, now, ehead, heads>>
 
+\* The consumers.  A[i] is the root node i answered; ok: do the header fetches of this call succeed.
+\* What a consumer knows of root r: its real slot if the cache has it or can fetch it, otherwise nothing - the
+\* block root strategies then "assume 0", the attestation data strategy gives no nearness bonus (less than any slot).
+Known(r, ok) == r \in DOMAIN map \/ ok
+Eff(kind, r, ok) == IF Known(r, ok) THEN chain[r] ELSE (IF kind = "best" THEN -1 ELSE 0)
+Votes(A, r) == Cardinality({i \in DOMAIN A : A[i] = r})
+Winners(kind, A, ok) ==
+    LET R == {A[i] : i \in DOMAIN A}
+        Top == IF kind = "majority" THEN {r \in R : \A q \in R : Votes(A, q) <= Votes(A, r)} ELSE R
+    IN {r \in Top : \A q \in Top : Eff(kind, q, ok) <= Eff(kind, r, ok)}
+UseReply(kind, w) == [op |-> "use", kind |-> kind, root |-> w]
+
+Use(kind, A, ok) ==
+    /\ \E S \in SUBSET (IF ok THEN {A[i] : i \in DOMAIN A} \ DOMAIN map ELSE {}) : map' = PutTruth(map, S)
+    /\ \E w \in Winners(kind, A, ok) : last' = UseReply(kind, w)
+    /\ UNCHANGED <<chain, parent, now, ehead, heads>>
+
 ExecHead ==
     /\ last' = ExecReply(ehead)
     /\ UNCHANGED <<chain, parent, map, now, ehead, heads>>
@@ -137,6 +160,7 @@ Next ==
     \/ \E r \in Roots : BlockEvent(r) \/ LookupHit(r) \/ LookupMissOk(r) \/ LookupMissErr(r)
     \/ \E r \in Roots : CtlBlockEvent(r) \/ CtlHeadEvent(r) \/ HeadEvent(r, TRUE) \/ HeadEvent(r, FALSE)
     \/ ExecHead
+    \/ UseNodes > 0 /\ \E kind \in {"latest", "majority", "best"}, A \in [1..UseNodes -> Roots], ok \in BOOLEAN : Use(kind, A, ok)
     \/ Clean
     \/ \E t \in Nows : Advance(t)
 
